@@ -6,6 +6,7 @@ toolchain go1.23.5
 
 require (
 	github.com/Factom-Asset-Tokens/factom v0.0.0-20191114224337-71de98ff5b3e
+	github.com/ethereum/go-ethereum v1.9.9
 	github.com/mattn/go-sqlite3 v1.11.0
 	github.com/pegnet/pegnet v0.5.1-0.20210225213341-a476b4b2cc0f
 	github.com/pegnet/pegnetd v0.0.0
@@ -94,7 +95,6 @@ require (
 	github.com/dustin/go-humanize v1.0.0 // indirect
 	github.com/edsrzf/mmap-go v0.0.0-20160512033002-935e0e8a636c // indirect
 	github.com/elastic/gosigar v0.8.1-0.20180330100440-37f05ff46ffa // indirect
-	github.com/ethereum/go-ethereum v1.9.9 // indirect
 	github.com/fatih/color v1.3.0 // indirect
 	github.com/fjl/memsize v0.0.0-20180418122429-ca190fb6ffbc // indirect
 	github.com/fsnotify/fsnotify v1.4.7 // indirect
